@@ -1312,7 +1312,7 @@ class Network(Cached):
     #  Degree related measures
     #
 
-    @Cached.method()
+    @Cached.method(attrs=("_mut_la",))
     def degree(self, key=None):
         """
         Return list of degrees.
@@ -1917,7 +1917,8 @@ class Network(Cached):
             return ((numerator/typical_weight**2 - 3.0*bilk - 1.0)
                     / (T - ksum/typical_weight - bilk + 2))
 
-    @Cached.method(name="the local cycle motif clustering coefficients")
+    @Cached.method(name="the local cycle motif clustering coefficients",
+                   attrs=("_mut_la",))
     def local_cyclemotif_clustering(self, key=None):
         """
         For each node, return the clustering coefficient with respect to the
@@ -1940,7 +1941,8 @@ class Network(Cached):
         T = self.indegree() * self.outdegree() - self.bildegree()
         return self._motif_clustering_helper(t_func, T, key=key)
 
-    @Cached.method(name="the local mid. motif clustering coefficients")
+    @Cached.method(name="the local mid. motif clustering coefficients",
+                   attrs=("_mut_la",))
     def local_midmotif_clustering(self, key=None):
         """
         For each node, return the clustering coefficient with respect to the
@@ -1963,7 +1965,8 @@ class Network(Cached):
         T = self.indegree() * self.outdegree() - self.bildegree()
         return self._motif_clustering_helper(t_func, T, key=key)
 
-    @Cached.method(name="the local in motif clustering coefficients")
+    @Cached.method(name="the local in motif clustering coefficients",
+                   attrs=("_mut_la",))
     def local_inmotif_clustering(self, key=None):
         """
         For each node, return the clustering coefficient with respect to the
@@ -1986,7 +1989,8 @@ class Network(Cached):
         T = self.indegree() * (self.indegree() - 1)
         return self._motif_clustering_helper(t_func, T, key=key)
 
-    @Cached.method(name="the local out motif clustering coefficients")
+    @Cached.method(name="the local out motif clustering coefficients",
+                   attrs=("_mut_la",))
     def local_outmotif_clustering(self, key=None):
         """
         For each node, return the clustering coefficient with respect to the
@@ -2010,7 +2014,7 @@ class Network(Cached):
         return self._motif_clustering_helper(t_func, T, key=key)
 
     @Cached.method(name="the local n.s.i. cycle motif clustering coefficients",
-                   attrs=("_mut_nw",))
+                   attrs=("_mut_nw", "_mut_la"))
     def nsi_local_cyclemotif_clustering(self, key=None, typical_weight=None):
         """
         For each node, return the nsi clustering coefficient with respect to
@@ -2058,7 +2062,7 @@ class Network(Cached):
             typical_weight=typical_weight, ksum=ksum)
 
     @Cached.method(name="the local n.s.i. mid. motif clustering coefficients",
-                   attrs=("_mut_nw",))
+                   attrs=("_mut_nw", "_mut_la"))
     def nsi_local_midmotif_clustering(self, key=None, typical_weight=None):
         """
         For each node, return the nsi clustering coefficient with respect to
@@ -2106,7 +2110,7 @@ class Network(Cached):
             typical_weight=typical_weight, ksum=ksum)
 
     @Cached.method(name="the local n.s.i. in motif clustering coefficients",
-                   attrs=("_mut_nw",))
+                   attrs=("_mut_nw", "_mut_la"))
     def nsi_local_inmotif_clustering(self, key=None, typical_weight=None):
         """
         For each node, return the nsi clustering coefficient with respect to
@@ -2154,7 +2158,7 @@ class Network(Cached):
             typical_weight=typical_weight, ksum=ksum)
 
     @Cached.method(name="the local n.s.i. out motif clustering coefficients",
-                   attrs=("_mut_nw",))
+                   attrs=("_mut_nw", "_mut_la"))
     def nsi_local_outmotif_clustering(self, key=None, typical_weight=None):
         """
         For each node, return the nsi clustering coefficient with respect to
@@ -2581,7 +2585,7 @@ class Network(Cached):
     #  Measure path lengths
     #
 
-    @Cached.method(name="path lengths")
+    @Cached.method(name="path lengths", attrs=("_mut_la",))
     def path_lengths(self, link_attribute=None):
         """
         For each pair of nodes i,j, return the (weighted) shortest path length
